@@ -1,5 +1,5 @@
 (* Database folding (C07), casts (C17) and equality (C09) on the database model. *)
-From Coq Require Import QArith Lia Sorting.Sorted.
+From Coq Require Import QArith Qround Lia Sorting.Sorted.
 From E3FP Require Import Base.Prelude Base.ZSet Model.Fprint Model.Db Proofs.DbBase Proofs.DbRefuse Proofs.DbInv Proofs.DbFrame Proofs.DbSpec.
 Open Scope Z_scope.
 
@@ -86,7 +86,7 @@ Theorem db_fold_view s h oid o nb ko s' hn :
                       (drows (view (bufs s) o)).
 Proof.
   intros Hs Hl H k'. pose proof (lookup_nth _ _ _ _ Hl) as Ho. cbn [step] in H. rewrite Hl in H. unfold h_fold in H.
-  destruct (Hs _ _ Ho) as ((Hr1 & Hr2) & Hf & Hn & Hi & He).
+  destruct (Hs _ _ Ho) as ((Hr1 & Hr2) & Hf & Hn & Hi).
   destruct (oarr o) as [c|] eqn:Ea; [|inv H].
   destruct (cbits c <? nb); [inv H|]. destruct (nb =? 0); [inv H|]. destruct (negb (pow2_ratio (cbits c) nb)); [inv H|].
   cbv zeta in H. rewrite sum_duplicates_fresh in H.
@@ -108,7 +108,7 @@ Proof.
   assert (Hc3 : (cdata c3 < length bs3 /\ cind c3 < length bs3 /\ cptr c3 < length bs3)%nat).
   { subst c3 bs3. cbn [cdata cind cptr]. rewrite app_length. simpl. lia. }
   destruct (csr_astype_spec _ _ _ _ _ _ Ec Hc3) as (e & -> & Hc4 & Hp & Hii & Hb & Hq).
-  unfold new_db_shared in H. destruct (negb (props_fit _ _ _)); [inv H|]. inv H.
+  unfold new_db_shared in H. destruct (negb (_ && props_fit _ _ _)); [inv H|]. inv H.
   eexists. split; [unfold handle_db, new_handle; rewrite lookup_pushed; reflexivity|].
   unfold push_obj. cbn [bufs]. unfold view at 1 2 3 4 5. cbn [dkind dbits dlevel dnames drows okind olevel oarr onames option_map].
   rewrite Hb. cbn [cbits c3]. repeat split.
@@ -158,3 +158,31 @@ Proof. induction rs; simpl; [reflexivity|]. rewrite row_diff_zero_refl, IHrs. re
 Lemma fold_rows_wf k nb r : 0 < nb ->
   ssorted (map fst (fold_row k nb r)) /\ forall j, In j (map fst (fold_row k nb r)) -> 0 <= j < nb.
 Proof. intro H. split; [apply fold_row_sorted | apply fold_row_range; exact H]. Qed.
+
+
+(* ---- the representability limit of COUNT_FP_DTYPE (uint16): sums formed by folding a count database wrap at 2^16 *)
+Lemma qsum_inject zs : (qsum (map inject_Z zs) == inject_Z (fold_right Z.add 0%Z zs))%Q.
+Proof.
+  induction zs as [|z t IH]; simpl; [reflexivity|]. rewrite IH, inject_Z_plus. reflexivity.
+Qed.
+
+Lemma wrap16_small q z : (q == inject_Z z)%Q -> 0 <= z <= count_dtype_max -> wrap16 q = inject_Z z.
+Proof.
+  intros Hq Hz. unfold wrap16. rewrite (Qfloor_comp _ _ Hq), Qfloor_Z. f_equal. apply Z.mod_small. unfold count_dtype_max in *. lia.
+Qed.
+
+(* db_fold_values, premise form: while every folded sum stays <= count_dtype_max the stored count IS the sum over the fibre *)
+Theorem db_fold_count_no_overflow zs :
+  0 <= fold_right Z.add 0 zs <= count_dtype_max ->
+  ksum KCount (map inject_Z zs) = inject_Z (fold_right Z.add 0 zs).
+Proof. intro H. unfold ksum. apply wrap16_small; [apply qsum_inject | exact H]. Qed.
+
+(* ... and beyond it the stored count is the sum modulo 2^16 (what uint16 arithmetic gives) *)
+Theorem db_fold_count_wraps zs :
+  ksum KCount (map inject_Z zs) = inject_Z (fold_right Z.add 0 zs mod (count_dtype_max + 1)).
+Proof. unfold ksum, wrap16. rewrite (Qfloor_comp _ _ (qsum_inject zs)), Qfloor_Z. reflexivity. Qed.
+
+Example fold_overflow_example :
+  fold_row KCount 8 [(1, inject_Z 40000); (9, inject_Z 40000)] = [(1, inject_Z 14464)]
+  /\ fold_row KCount 8 [(1, inject_Z 30000); (9, inject_Z 30000)] = [(1, inject_Z 60000)].
+Proof. vm_compute. split; reflexivity. Qed.
